@@ -235,3 +235,95 @@ Theorem C02_censusv_program : forall (coll : Z -> list payload -> Z -> payload) 
      Some (resultv final (out_offsets (map (fun s => len s me) final)) (concat (map (fun s => slice s me) final)))).
 Proof. exact censusv_round. Qed.
 Print Assumptions C02_censusv_program.
+
+(* ==== EVERY SCHEDULE for the payload variants: the round abstraction and the collective contracts discharged ======================
+   Interleaving semantics with wildcard receives MPI/SemAny.v (binary, n-ary: no collective) and with synchronising collectives
+   MPI/SemColl.v (pcx, rsx, ranges; trusted contract SemColl.coll_reply, spelled out in C01_coll_contract); generic theorems
+   MPI/SemRounds.v / SemRoundsOrd.v; instances C02/BinaryPaySched.v, C02/NaryPaySched.v, C01/CensusSched.v, C01/RangesSched.v with
+   hp = true.  Documentation: docs/C01_sched2.md.  (No `Import` of the semantics modules: Sem.run would shadow NotifyProgProofs.run.) *)
+From ScV Require MPI.Sem MPI.SemAny MPI.SemColl C02.BinaryPaySched C02.NaryPaySched C01.CensusSched C01.RangesSched.
+
+(* BINARY RECURSION WITH PAYLOAD, ONE CALL, EVERY SCHEDULE, every 1 <= G <= 2^29, every family of ascending receiver lists, every
+   payload family: system binary_pay_sys (rank r < G runs binary_core G r (R r) (Some items) ..: the levels of the recursion, then
+   the wrapper phase - sends of the items to the listed receivers, NAMED receives from the senders found, in ascending order).
+   The round property C02_binary_round_semantics is instantiated in the every-schedule theorem of n + 1 levels: no reachable state is
+   stuck, a run has at most binary_pay_steps steps and is final exactly after that many, in every final state rank r has the
+   transposed list with pay s r at the position of sender s, and all channels are empty *)
+Theorem C02_binary_every_schedule : forall G (R : Z -> list Z) (pay : Z -> Z -> payload),
+  0 < G <= BIG ->
+  (forall f, 0 <= f < G -> ssorted (fun x => x) (R f) /\ forall t, In t (R f) -> 0 <= t < G) ->
+  exists n : nat, binary_pow2length G = 2 ^ Z.of_nat n /\
+  forall k s, SemAny.run_a k (BinaryPaySched.binary_pay_sys G R pay) s ->
+    ~ SemAny.stuck s /\
+    (k <= BinaryPaySched.binary_pay_steps G R pay n)%nat /\
+    (Sem.final s <-> k = BinaryPaySched.binary_pay_steps G R pay n) /\
+    (Sem.final s -> (forall r, 0 <= r < G -> Sem.pr s r = Ret (result (transpose G R r) (map (fun q => pay q r) (transpose G R r)))) /\
+                    (forall a b t, Sem.ch s a b t = [])).
+Proof. exact BinaryPaySched.binary_pay_every_schedule. Qed.
+Print Assumptions C02_binary_every_schedule.
+(* at most 3 steps per rank and level, and 2 G per rank in the wrapper phase *)
+Theorem C02_binary_steps_le : forall G (R : Z -> list Z) (pay : Z -> Z -> payload) (n : nat), 0 < G <= BIG ->
+  (forall f, 0 <= f < G -> ssorted (fun x => x) (R f) /\ forall t, In t (R f) -> 0 <= t < G) ->
+  (BinaryPaySched.binary_pay_steps G R pay n <= Z.to_nat G * (3 * n + 2 * Z.to_nat G))%nat.
+Proof. exact BinaryPaySched.binary_pay_steps_le. Qed.
+Print Assumptions C02_binary_steps_le.
+
+(* N-ARY RECURSION WITH PAYLOAD, ONE CALL, EVERY SCHEDULE, every 1 < G <= 2^29, all widths >= 2 in int range, every family of ascending
+   receiver lists, every payload family of items of sz bytes (0 < sz < 2^31; the items travel packed into npay_nary ints inside the
+   records): the round property C02_nary_core_round_semantics instantiated; same three statements, final states with pay s r at the
+   position of sender s *)
+Theorem C02_nary_every_schedule : forall G (R : Z -> list Z) ntop nint nbot,
+  0 < G <= BIG -> G <> 1 ->
+  (forall f, 0 <= f < G -> ssorted (fun x => x) (R f) /\ forall t, In t (R f) -> 0 <= t < G) ->
+  2 <= ntop -> 2 <= nint -> 2 <= nbot -> nbot <= BIG -> nbot * ntop <= BIG -> G * nint <= BIG ->
+  forall (pay : Z -> Z -> payload) sz, 0 < sz < 2 ^ 31 ->
+  (forall f t, Forall isbyte (pay f t) /\ Z.of_nat (length (pay f t)) = sz) ->
+  exists depth prod, nary_depth 64 G nbot ntop nint = Some (depth, prod) /\
+  forall n s, SemAny.run_a n (NaryPaySched.nary_sys G R ntop nint nbot sz pay) s ->
+    ~ SemAny.stuck s /\
+    (n <= NaryPaySched.nary_steps G R (NaryPaySched.payfP pay sz) (NaryPaySched.nary_params G ntop nint nbot depth))%nat /\
+    (Sem.final s <-> n = NaryPaySched.nary_steps G R (NaryPaySched.payfP pay sz) (NaryPaySched.nary_params G ntop nint nbot depth)) /\
+    (Sem.final s -> (forall r, 0 <= r < G -> Sem.pr s r = Ret (result (transpose G R r) (map (fun q => pay q r) (transpose G R r)))) /\
+                    (forall a b t, Sem.ch s a b t = [])).
+Proof. exact NaryPaySched.nary_pay_every_schedule. Qed.
+Print Assumptions C02_nary_every_schedule.
+Theorem C02_nary_steps_le : forall G (R : Z -> list Z) ntop nint nbot,
+  0 < G <= BIG -> G <> 1 ->
+  (forall f, 0 <= f < G -> ssorted (fun x => x) (R f) /\ forall t, In t (R f) -> 0 <= t < G) ->
+  2 <= ntop -> 2 <= nint -> 2 <= nbot -> nbot <= BIG -> nbot * ntop <= BIG -> G * nint <= BIG ->
+  forall (pay : Z -> Z -> payload) sz, (forall f t, Forall isbyte (pay f t) /\ Z.of_nat (length (pay f t)) = sz) ->
+  forall depth prod, nary_depth 64 G nbot ntop nint = Some (depth, prod) ->
+  (NaryPaySched.nary_steps G R (NaryPaySched.payfP pay sz) (NaryPaySched.nary_params G ntop nint nbot depth) <=
+   Z.to_nat G * list_sum (map (fun D => 3 * Z.to_nat D) (map snd (nary_ls depth ntop nint nbot))))%nat.
+Proof. exact NaryPaySched.nary_pay_steps_le. Qed.
+Print Assumptions C02_nary_steps_le.
+
+(* PCX / RSX WITH ONE ITEM PER RECEIVER, EVERY SCHEDULE (cf. C01_census_every_schedule): every payload family (any sizes); in every
+   final state rank r has returned result o (items of o) with o a permutation of the transposed list (THE transposed list if sorted,
+   the arrival order otherwise) and pay q r at the position of q; channels empty.  Discharges both hypotheses of C02_census_program *)
+Theorem C02_census_every_schedule : forall kind, kind = K_RSB \/ kind = K_RMA ->
+  forall P (R : Z -> list Z) (pay : Z -> Z -> payload) (sorted : bool), 0 < P ->
+  (forall f, 0 <= f < P -> ssorted (fun x => x) (R f) /\ forall t, In t (R f) -> 0 <= t < P) ->
+  forall n s, SemColl.run_c P SemColl.coll_reply n (CensusSched.census_sys kind P R true pay sorted) s ->
+    (Sem.final s \/ SemColl.can_step_c P SemColl.coll_reply s) /\
+    (n <= CensusSched.census_steps P R true pay)%nat /\
+    (Sem.final s <-> n = CensusSched.census_steps P R true pay) /\
+    (Sem.final s ->
+       (forall r, 0 <= r < P -> exists o, Permutation o (transpose P R r) /\ (sorted = true -> o = transpose P R r) /\
+                                         Sem.pr s r = Ret (result o (map (fun q => pay q r) o))) /\
+       (forall a b t, Sem.ch s a b t = [])).
+Proof. intros kind Hk P R pay sorted HP HR. exact (CensusSched.census_every_schedule kind Hk P R true pay sorted HP HR). Qed.
+Print Assumptions C02_census_every_schedule.
+
+(* RANGES WITH ONE ITEM PER RECEIVER, EVERY SCHEDULE (cf. C01_ranges_every_schedule): items of any size; the uninitialised bytes behind
+   a 0 flag (model: zeros) are received and dropped *)
+Theorem C02_ranges_every_schedule : forall P (R : Z -> list Z) (pay : Z -> Z -> payload) sz nr, 0 < P -> 1 <= nr ->
+  (forall f, 0 <= f < P -> ssorted (fun x => x) (R f) /\ forall t, In t (R f) -> 0 <= t < P) ->
+  forall n s, SemColl.run_c P SemColl.coll_reply n (RangesSched.ranges_sys P R true pay sz nr) s ->
+    (Sem.final s \/ SemColl.can_step_c P SemColl.coll_reply s) /\
+    (n <= RangesSched.ranges_steps P R true pay sz nr)%nat /\
+    (Sem.final s <-> n = RangesSched.ranges_steps P R true pay sz nr) /\
+    (Sem.final s -> (forall r, 0 <= r < P -> Sem.pr s r = Ret (result (transpose P R r) (map (fun q => pay q r) (transpose P R r)))) /\
+                    (forall a b t, Sem.ch s a b t = [])).
+Proof. intros P R pay sz nr HP Hnr HR. exact (RangesSched.ranges_every_schedule P R true pay sz nr HP Hnr HR). Qed.
+Print Assumptions C02_ranges_every_schedule.
